@@ -39,6 +39,7 @@ thread_local! {
 /// panics inside the analysis happen on rayon worker threads: the hook also files the location under the message
 static PANIC_LOCS: Mutex<Vec<(String, String)>> = Mutex::new(Vec::new());
 static TIMES: Mutex<BTreeMap<String, (u64, u64)>> = Mutex::new(BTreeMap::new());
+static AT_SINK: Mutex<Option<Arc<Out>>> = Mutex::new(None);
 
 fn add_time(name: &str, t: Instant) {
     let us = t.elapsed().as_micros() as u64;
@@ -116,6 +117,11 @@ impl Heartbeat {
         self.last_ms.store(self.t0.elapsed().as_millis() as u64, Ordering::Relaxed);
     }
     fn set(&self, v: Value) {
+        // breadcrumb for aborts that catch_unwind cannot see (stack overflow): which case/step/phase was running
+        if let Some(out) = AT_SINK.lock().unwrap().as_ref() {
+            let id = v.get("case").and_then(|c| c.get("id")).cloned().unwrap_or(Value::Null);
+            out.write(&json!({"kind": "at", "id": id, "step": v.get("step").cloned().unwrap_or(Value::Null), "phase": v.get("phase").cloned().unwrap_or(Value::Null)}));
+        }
         *self.desc.lock().unwrap() = Some(v);
         self.current.lock().unwrap().clear();
         self.idle.store(0, Ordering::Relaxed);
@@ -549,6 +555,49 @@ fn file_queries(project: &Project, sc: &mut StateCtx, fname: &str, src: &Source)
     }
 }
 
+/// hover (format_declaration) of the declarations of a file: those nearest to `near` first, at most `limit`
+fn format_decls(project: &Project, sc: &mut StateCtx, fname: &str, src: &Source, near: Option<u32>, limit: usize) {
+    fn collect<'a>(h: &EntHierarchy<'a>, out: &mut Vec<EntRef<'a>>) {
+        out.push(h.ent);
+        for c in &h.children {
+            collect(c, out);
+        }
+    }
+    let t = Instant::now();
+    let mut current = String::new();
+    let res = catch_unwind(AssertUnwindSafe(|| {
+        let mut ents: Vec<EntRef> = vec![];
+        for lib in project.library_mapping_of(src) {
+            for (h, _ctx) in project.document_symbols(&lib, src) {
+                collect(&h, &mut ents);
+            }
+        }
+        let line_of = |e: &EntRef| e.decl_pos().map(|p| p.range.start.line).unwrap_or(0);
+        if let Some(n) = near {
+            ents.sort_by_key(|e| (line_of(e) as i64 - n as i64).abs());
+        }
+        let mut k = 0usize;
+        for e in ents.into_iter().take(limit) {
+            current = format!("{} (line {})", e.describe(), line_of(&e) + 1);
+            let _ = project.format_declaration(e);
+            // completionItem/resolve takes the same route through the entity id
+            if let Some(id) = project.entity_id_from_raw(e.id().to_raw()) {
+                let _ = project.format_entity(id);
+            }
+            k += 1;
+        }
+        k
+    }));
+    add_time("format_declaration(hover of the file's declarations)", t);
+    match res {
+        Ok(k) => sc.stats.queries += k,
+        Err(e) => {
+            let line = current.rsplit("(line ").next().and_then(|x| x.trim_end_matches(')').parse::<u32>().ok()).unwrap_or(1);
+            sc.report("panic", "format_declaration(hover)", format!("{} while formatting {}", panic_text(&e), current), Some((fname, line.saturating_sub(1), 0)));
+        }
+    }
+}
+
 fn cursor_queries(project: &Project, sc: &mut StateCtx, fname: &str, src: &Source, cursors: &[(u32, u32)], hb: &Heartbeat, seen_ents: &mut HashSet<usize>, near: Option<u32>, full: bool) {
     let texts = Texts::new(project);
     let nlines = src.contents().num_lines() as u32;
@@ -907,6 +956,8 @@ fn run_case(case: &Case, dir: &Path, hb: &Heartbeat, out: &Out, opts: &Opts) -> 
             if !lean || step % 8 == 0 || step == nsteps {
                 file_queries(&project, &mut sc, fname, &src);
             }
+            let fmt_limit = if batch { usize::MAX } else if lean { 6 } else if is_edited || step == nsteps { 10 } else { 3 };
+            format_decls(&project, &mut sc, fname, &src, near, fmt_limit);
             cursor_queries(&project, &mut sc, fname, &src, &cursors, hb, &mut seen_ents, if lean && step < nsteps { None } else { near }, opts.full_queries);
             hb.beat();
         }
@@ -984,6 +1035,7 @@ fn run_case(case: &Case, dir: &Path, hb: &Heartbeat, out: &Out, opts: &Opts) -> 
 fn run_all(cases: Arc<Vec<Case>>, out_path: &str, workdir: &str, threads: usize, watchdog_s: u64, opts: Arc<Opts>, budget_s: u64) -> i32 {
     install_hook();
     let out = Arc::new(Out { file: Mutex::new(std::fs::File::create(out_path).unwrap()), sigs: Mutex::new(HashMap::new()) });
+    *AT_SINK.lock().unwrap() = Some(out.clone());
     let next = Arc::new(AtomicUsize::new(0));
     let t0 = Instant::now();
     let hbs: Vec<Arc<Heartbeat>> = (0..threads).map(|_| Arc::new(Heartbeat::new(t0))).collect();
@@ -1288,6 +1340,23 @@ fn main() {
             std::fs::create_dir_all(&dir).unwrap();
             let m = minimize(case, &want, &dir);
             std::fs::write(&args[3], serde_json::to_string_pretty(&m.to_json()).unwrap()).unwrap();
+        }
+        "dump" => {
+            // c03 dump <seed> <ncases> <nsteps> <kinds> <id>: the generated case with that id (as `gen` would build it)
+            let seed: u64 = args[2].parse().unwrap();
+            let ncases: usize = args[3].parse().unwrap();
+            let nsteps: usize = args[4].parse().unwrap();
+            let stride: usize = args[5].parse().unwrap();
+            let mut cases: Vec<Case> = if stride == 0 { vec![] } else { gen::zoo_cases(seed, stride) };
+            if stride != 0 {
+                cases.extend(gen::lit_cases(seed, if stride == 1 { 2 } else { 48 }));
+            }
+            cases.extend((0..(ncases + 7) / 8).map(|i| gen::dup_case(seed, i, nsteps / 2)));
+            cases.extend((0..ncases).map(|i| gen::gen_case(seed, i, nsteps)));
+            match cases.iter().find(|c| c.id == args[6]) {
+                Some(c) => println!("{}", c.to_json()),
+                None => std::process::exit(4),
+            }
         }
         "show" => {
             let c = gen::gen_case(args[2].parse().unwrap(), args[3].parse().unwrap(), args[4].parse().unwrap());
